@@ -34,6 +34,8 @@ def run(ctx):
     ctx.rule('R19.4', 'index domain: an index used to select from collection B was produced by enumerating B itself (same binding, same order)', 3)
     ctx.rule('R19.5', "rational_limit: three-case L'Hopital table; every division is guarded by a non-zero test of that denominator; derivatives are paired", 2)
     ob = lambda r: Obligation(ctx, r)
+    ctx.rule('R19.8', "polyroots' de-duplication / real filter use isclose(a,b) == (|a-b| < atol + rtol|b|)", 1)
+    check_isclose_definition(ctx, 'R19.8')
 
     # ---------------------------------------------------------------- R19.1
     fnck = mdl.func('bezier.n_choose_k')
